@@ -6,9 +6,9 @@ src=/tmp/seed/out_$pid/$k
 W=$(mktemp -d /tmp/seedrun/w_${pid}_${k}_XXXX)
 rsync -a --exclude .git /repo/ $W/
 cd $W
-/venv/bin/python $src/demo.py > $W/demo_unchanged.log 2>&1; r0=$?
+PYTHONPATH=$W /venv/bin/python $src/demo.py > $W/demo_unchanged.log 2>&1; r0=$?
 patch -p1 -s < $src/patch.diff > $W/patch.log 2>&1; rp=$?
-/venv/bin/python $src/demo.py > $W/demo_changed.log 2>&1; r1=$?
+PYTHONPATH=$W /venv/bin/python $src/demo.py > $W/demo_changed.log 2>&1; r1=$?
 rt=-1; summary=""
 if [ -n "$full" ]; then
   /venv/bin/python -m pytest -q -p no:cacheprovider --timeout=900 --deselect wntr/tests/test_demos.py wntr/tests > $W/tests.log 2>&1
